@@ -18,7 +18,7 @@ impl Parser for Function {
             tuple((
                 map(opt(tuple((tag("oneway"), blank))), |x| x.is_some()),
                 Type::parse,
-                blank,
+                opt(blank),
                 Ident::parse,
                 opt(blank),
                 tag("("),
